@@ -9,7 +9,8 @@ package main
 // kinds / params: see lean/Oracle/C05.lean.
 //
 // generators: c05 (cov + pred lines), c05s18 (configurations that drive normalizeCovering into its
-// "re-cover with default options" branch; kept apart because the level discipline fails there).
+// "re-cover with default options" branch; kept apart because the level discipline fails there),
+// c05hemi (caps within 1e-7 rad - 1 sample in 4: 1e-5 rad - of a hemisphere reaching over the middle of a cell edge: defect D59).
 
 import (
 	"fmt"
@@ -200,6 +201,7 @@ func init() {
 	}
 	generators["c05s18"] = genC05S18
 	generators["c05polar"] = genC05Polar
+	generators["c05hemi"] = genC05Hemi
 }
 
 // ---------------------------------------------------------------- regions
@@ -1352,5 +1354,103 @@ func genC05S18(g *G) {
 			rad := math.Pow(2, -float64(minL)) * (1 + 6*r.Float())
 			g.c05Emit(g.c05MakeRegion([]string{"cap", "loop", "cell", "rect"}[r.Intn(4)], g.c05Center(), rad), cfg, true)
 		}
+	}
+}
+
+// ---------------------------------------------------------------- c05hemi: caps next to a hemisphere (defect D59)
+//
+// Cap.intersects rejected an edge with  dot*dot > sin2Angle*edge.Norm2().  For a cap within ~1e-7 rad of a
+// hemisphere whose centre is ~90 degrees from the edge both sides are 1 - O(1e-16): rounding decided, and a cap
+// that reaches across the middle of the edge into the cell (no cell vertex inside) was answered
+// IntersectsCell = false; through Complement() the same test made ContainsCell = true for the cap just ABOVE a
+// hemisphere that leaves out that part of the cell.
+//
+// Recipe (every sample is EMITTED; nothing depends on an answer of the library under test):
+//   cell   level 0..4 (1/2: 0..2, the widest window), random face / child path; edge k = 0..3;
+//          1 sample in 4 is "wide": level 0..6 and hi = 1e-5 instead of 1e-7 below (the region where the
+//          rejection test stops being decided by rounding: exercises the repaired test at its own threshold)
+//   n      = cell.Edge(k), the unit inward normal of the edge's great circle
+//   m      = Normalize((1-t)*v_k + t*v_{k+1}), t in [0.3, 0.7] (1/4: [0.1, 0.9]): a point of the edge
+//   gap    = 1 - max(m.v_k, m.v_{k+1});  f in [0.2, 0.8]
+//   e2     log-uniform in [lo, hi], lo = max(1e-9, 4e-12/(gap*f)), hi = 1e-7 (the lower end keeps the depth
+//          below >= 4e-12 rad; if lo > hi - possible for wide samples of level >= 5 only - e2 = lo)
+//   e1     = e2*(1 - gap*f):  max(m.v_k, m.v_{k+1})*e2 < e1 < e2, so the cap boundary crosses the edge on both
+//          sides of m and both end vertices are outside; depth = e2 - e1 = e2*gap*f is how far (rad) the cap reaches
+//          over the edge at m
+//   a      = Normalize(-cos(e2)*n + sin(e2)*m)  (e2 from the outward pole -n of the edge's great circle, tilted towards m)
+//   mIn    = Normalize(cos(depth/2)*m + sin(depth/2)*n): depth/2 inside the cell AND depth/2 inside the cap
+//   variant I (2 of 3): cap (a, r2 = 2 - 2 sin e1), radius 90 degrees - e1: m, mIn are points of cap and cell, so
+//          IntersectsCell(cell) must be true and a covering must cover mIn
+//   variant C (1 of 3): cap (-a, r2 = 2 + 2 sin e1), radius 90 degrees + e1, the complement: all four vertices are
+//          inside, mIn is a cell point OUTSIDE the cap by depth/2, so ContainsCell(cell) must be false
+// Lines: `pred cap` for the cell and for its neighbour across edge k (m lies exactly in one of the two closed cells),
+// samples = the standard cell samples + m + mIn; every 4th sample of variant I a `cov cap` line with MinLevel = the
+// cell's level (so that the cell itself is tested), small MaxCells, points m and mIn.
+// Judge margin: the oracle accepts a sample as strictly inside (outside) the cap when its chord is below
+// sqrt(r2*(1-2^-50)) - 2^-48 (above sqrt(r2*(1+2^-50)) + 2^-48), i.e. 5.9e-15 rad at 90 degrees; mIn is off the
+// boundary by depth/2 >= 2e-12 rad (factor >= 340), and >= 2e-12 rad inside the cell (rounding of mIn: 1e-16).
+
+func c05HemiCell(r *RNG, lvl int) s2.CellID {
+	id := s2.CellIDFromFace(r.Intn(6))
+	for l := 0; l < lvl; l++ {
+		id = id.Children()[r.Intn(4)]
+	}
+	return id
+}
+
+func (g *G) c05HemiSample(i int) {
+	r := g.rng
+	lvl := r.Intn(3)
+	if r.Intn(2) == 0 {
+		lvl = r.Intn(5)
+	}
+	hi := 1e-7
+	if r.Intn(4) == 0 { // wide: up to 1e-5 rad from the hemisphere, cells down to level 6
+		hi = 1e-5
+		lvl = r.Intn(7)
+	}
+	id := c05HemiCell(r, lvl)
+	cell := s2.CellFromCellID(id)
+	k := r.Intn(4)
+	n := cell.Edge(k).Vector
+	v0, v1 := cell.Vertex(k).Vector, cell.Vertex((k+1)&3).Vector
+	t := 0.3 + 0.4*r.Float()
+	if r.Intn(4) == 0 {
+		t = 0.1 + 0.8*r.Float()
+	}
+	m := v0.Mul(1 - t).Add(v1.Mul(t)).Normalize()
+	gap := 1 - math.Max(m.Dot(v0), m.Dot(v1))
+	f := 0.2 + 0.6*r.Float()
+	lo := math.Max(1e-9, 4e-12/(gap*f))
+	e2 := lo
+	if lo < hi {
+		e2 = lo * math.Pow(hi/lo, r.Float())
+	}
+	depth := e2 * gap * f
+	e1 := e2 - depth
+	mIn := m.Mul(math.Cos(depth / 2)).Add(n.Mul(math.Sin(depth / 2))).Normalize()
+	extra := []s2.Point{{Vector: m}, {Vector: mIn}}
+	var params string
+	contains := i%3 == 2
+	if contains {
+		a := n.Mul(math.Cos(e2)).Add(m.Mul(-math.Sin(e2))).Normalize()
+		params = c5Pt(s2.Point{Vector: a}) + ":" + fx(2+2*math.Sin(e1))
+	} else {
+		a := n.Mul(-math.Cos(e2)).Add(m.Mul(math.Sin(e2))).Normalize()
+		params = c5Pt(s2.Point{Vector: a}) + ":" + fx(2-2*math.Sin(e1))
+	}
+	g.emitPredPts("cap", params, id, extra)
+	if g.count < g.n {
+		g.emitPredPts("cap", params, id.EdgeNeighbors()[k], extra)
+	}
+	if !contains && i%4 == 0 && g.count < g.n {
+		maxL := []int{lvl, lvl + 1, lvl + 3, 30}[r.Intn(4)]
+		g.emit("cov", "cap", params, is(lvl), is(maxL), "1", is([]int{1, 3, 4, 8, 20}[r.Intn(5)]), "C", c5Pts(extra))
+	}
+}
+
+func genC05Hemi(g *G) {
+	for i := 0; g.count < g.n; i++ {
+		g.c05HemiSample(i)
 	}
 }
